@@ -86,6 +86,8 @@ class Interval(Module):
         return bool(torch.all(tensor <= self.upper_bound) and torch.all(tensor >= self.lower_bound))
 
     def check_raw(self, tensor) -> bool:
+        if not torch.is_tensor(tensor):  # Module.initialize documents plain floats as values
+            tensor = torch.as_tensor(tensor, dtype=self.lower_bound.dtype, device=self.lower_bound.device)
         return bool(
             torch.all((self.transform(tensor) <= self.upper_bound))
             and torch.all(self.transform(tensor) >= self.lower_bound)
